@@ -212,6 +212,18 @@ class Xmllint:
     def available(self):
         return self.exe is not None
 
+    def validate_all(self, docs, jobs=8):
+        """validate_many over several xmllint processes at once (order preserved)"""
+        from concurrent.futures import ThreadPoolExecutor
+        chunks = [docs[i:i + 40] for i in range(0, len(docs), 40)]
+        subs = [Xmllint.__new__(Xmllint) for _ in chunks]
+        for k, x in enumerate(subs):
+            x.exe, x.schema, x.catalog, x.n = self.exe, self.schema, self.catalog, 0
+            x.dir = tempfile.mkdtemp(prefix='p%d-' % k, dir=self.dir)
+        with ThreadPoolExecutor(max_workers=jobs) as ex:
+            outs = list(ex.map(lambda a: a[0].validate_many(a[1]), zip(subs, chunks)))
+        return [r for o in outs for r in o]
+
     def validate_many(self, docs):
         """docs: list of bytes -> list of (valid: bool, first error line).  One xmllint process per
         batch of files (the schema is compiled once per process)."""
@@ -426,3 +438,44 @@ def split_libraries(data):
             new.append(c)
         root.insert(list(root).index(lib) + 1, new)
     return ET.tostring(root, encoding='utf-8', xml_declaration=True)
+
+
+def variants(data):
+    """Every single-step structural neighbour of a document: one element duplicated next to itself
+    (ids inside the copy made fresh), one element removed, one element emptied of its children,
+    one attribute removed.  Yields (label, bytes); the caller keeps the schema-valid ones."""
+    import copy
+    ET.register_namespace('', NS_141)
+    root0 = ET.fromstring(data)
+    n = sum(1 for _ in root0.iter())
+    for idx in range(1, n):
+        for kind in ('dup', 'drop', 'empty', 'attr'):
+            root = copy.deepcopy(root0)
+            parent = {c: p for p in root.iter() for c in p}
+            e = list(root.iter())[idx]
+            p = parent[e]
+            tag = e.tag.split('}')[-1]
+            if kind == 'dup':
+                c = copy.deepcopy(e)
+                for x in c.iter():
+                    for a in ('id', 'sid'):
+                        if x.get(a) is not None:
+                            x.set(a, x.get(a) + '_copy')
+                p.insert(list(p).index(e) + 1, c)
+            elif kind == 'drop':
+                p.remove(e)
+            elif kind == 'empty':
+                if len(e) == 0:
+                    continue
+                for c in list(e):
+                    e.remove(c)
+            else:
+                if not e.attrib:
+                    continue
+                for a in sorted(e.attrib):
+                    r2 = copy.deepcopy(root0)
+                    e2 = list(r2.iter())[idx]
+                    del e2.attrib[a]
+                    yield '%s:%d:%s@%s' % (kind, idx, tag, a), ET.tostring(r2, encoding='utf-8', xml_declaration=True)
+                continue
+            yield '%s:%d:%s' % (kind, idx, tag), ET.tostring(root, encoding='utf-8', xml_declaration=True)
